@@ -258,7 +258,7 @@ def run(prop, tier):
         # positive controls on the real tree: every seeded mutant of this property must be caught
         results, rc = selftest(props={prop})
         out["mutants"] = results
-        bad = [r for r in results if r["status"] in ("missed", "broken")]
+        bad = [r for r in results if r["status"] in ("missed", "broken", "false-alarm")]
         if bad:
             raise AnalysisBroken("mutation self-test failed: %s" % ", ".join("%s(%s)" % (r["id"], r["status"]) for r in bad))
     return out
@@ -307,5 +307,5 @@ def selftest(which=None, props=None):
         st, detail = mutants.run_mutant(m, lambda: f(prop=m["prop"], tier=m.get("tier", "quick")))
         results.append(dict(id=m["id"], rule=m["rule"], property=m["prop"], status=st, detail=detail))
         print("mutant %-28s %-12s %-8s %s" % (m["id"], m["rule"], st, detail[:140]))
-    missed = [r for r in results if r["status"] in ("missed", "broken")]
+    missed = [r for r in results if r["status"] in ("missed", "broken", "false-alarm")]
     return results, (2 if missed else 0)
